@@ -291,10 +291,21 @@ class StateTwin:
     episode's seed; the output is where every agent stands and what every cell holds, or the kind of
     exception of a refused reset.  No steps (nobody expects an action)."""
 
-    def __init__(self, state, grid, agents):
+    def __init__(self, state, grid, agents, target=None, earlier=()):
         self.state, self.grid, self.agents = state, grid, agents
+        # a used object may have seen its target agent at other initial positions in earlier
+        # episodes (reassigned through the public attribute): the follow-up episode must only see
+        # the present one
+        self.target, self.earlier, self.dirty_mode, self.n = target, list(earlier), False, 0
+        self.final = None if target is None else target.initial_position
 
     def reset(self):
+        if self.target is not None and self.final is not None:
+            if self.dirty_mode and self.n < len(self.earlier):
+                self.target.initial_position = np.array(self.earlier[self.n])
+            else:
+                self.target.initial_position = self.final
+            self.n += 1
         try:
             self.state.reset()
         except Exception as e:  # noqa: BLE001  -- a refused reset is part of the behaviour
@@ -314,9 +325,10 @@ class StateTwin:
 def build_placement(desc, rng):
     """PositionState / TargetBarriersFreePlacementState / MazePlacementState as gen_C13 builds them."""
     from . import gen_C13
-    cfg, style = desc
+    cfg, style = desc[:2]
     state, grid, agents = gen_C13.build(cfg, style)
-    return StateTwin(state, grid, agents)
+    target = agents[f"a{cfg[6]}"] if cfg[0] != 0 else None
+    return StateTwin(state, grid, agents, target, desc[2] if len(desc) > 2 else ())
 
 
 STACKS[0] = build_script
@@ -332,6 +344,9 @@ def impl(inp):
     kind, desc, prefix, nfollow, seeds = inp
     fresh = STACKS[kind](desc, None)
     used = STACKS[kind](desc, None)
+    if hasattr(used, "dirty_mode"):
+        used.dirty_mode = True
+        used.earlier = used.earlier[:len(prefix)]
     # dirty the used object
     for n, cut in enumerate(prefix):
         twin.play(used, random.Random(seeds[0] + n), cut, seeds[1] + n)
@@ -424,7 +439,8 @@ def placement_desc(rng):
     else:       # larger grids, clustered / scattered, target usually placed at random
         cfg = gen_C13.rand_cfg(rng, kind, rng.randint(3, 7), rng.randint(3, 7),
                                [rng.randint(0, 1), rng.randint(0, 1), rng.choice([0, 1, 1]), rng.choice([0, 1, 1])])
-    return [cfg, rng.randrange(64)]
+    earlier = [[rng.randrange(cfg[1]), rng.randrange(cfg[2])] for _ in range(3)] if rng.random() < 0.5 else []
+    return [cfg, rng.randrange(64), earlier]
 
 
 EXTRA_DESC = {3: wrapped_desc, 4: adapter_desc, 5: example_desc, 6: placement_desc}
